@@ -11,6 +11,7 @@ def toOut : Item → Out
   | .hdr => .hdr
   | .msg j => .msg j
   | .status c => .status c
+  | .expired => .expired
 
 def connView (cn : Conn) : ConnView :=
   { offeredAfterSignal := cn.offeredAfterSig, accepted := cn.accepted, closed := cn.closed }
@@ -18,7 +19,13 @@ def connView (cn : Conn) : ConnView :=
 /-- what the caller of `k` has in hand: the first `recv` items written to the stream -/
 def callView (cn : Conn) (k : Call) : CallView :=
   { plan := k.plan.map toOut, got := (k.sent.take k.recv).map toOut, started := k.started,
-    abandoned := k.cancelled || cn.peerGone }
+    abandoned := k.cancelled || cn.peerGone, timedOut := k.expired }
+
+/-- the oracle's `outcome` of the view is the model's `Call.outcome` -/
+theorem outcome_callView (cn : Conn) (k : Call) :
+    outcome (callView cn k) = k.outcome.map toOut := by
+  simp only [outcome, callView, Call.outcome]
+  by_cases he : k.expired = true <;> simp [he, toOut]
 
 def connViews (s : State) : List ConnView := s.conns.map connView
 
@@ -37,22 +44,39 @@ theorem isPrefix_take_append (n : Nat) (a b : List Out) : isPrefix (a.take n) (a
   exact isPrefix_refl_append _ _
 
 theorem callView_truthful {cn : Conn} {k : Call} (h : CallOk k) :
-    isPrefix (callView cn k).got (callView cn k).plan = true
+    isPrefix (callView cn k).got (outcome (callView cn k)) = true
     ∧ ((callView cn k).started = true ∨ (callView cn k).got = []) := by
   constructor
-  · simp only [callView]
-    rw [← h.plan_eq, List.map_append, List.map_take]
-    exact isPrefix_take_append _ _ _
+  · cases he : k.expired with
+    | false =>
+      simp only [callView, outcome, he, Bool.false_eq_true, if_false]
+      rw [← h.plan_eq he, List.map_append, List.map_take]
+      exact isPrefix_take_append _ _ _
+    | true =>
+      simp only [callView, outcome, he, if_true, (h.expired_eq he).1]
+      have := isPrefix_take_append k.recv [Out.expired] []
+      simpa [toOut, List.map_take] using this
   · simp only [callView]
     cases hs : k.started with
     | true => exact Or.inl rfl
     | false => right; simp [h.unstarted hs]
 
 theorem callView_complete {cn : Conn} {k : Call} (h : CallOk k) (hc : k.complete = true) :
-    (callView cn k).got = (callView cn k).plan := by
+    (callView cn k).got = outcome (callView cn k) := by
   simp only [Call.complete, Bool.and_eq_true, List.isEmpty_iff, beq_iff_eq] at hc
-  have hp := h.plan_eq
-  simp only [hc.1, List.flatten_nil, List.append_nil] at hp
-  simp only [callView, hc.2, List.take_length, hp]
+  cases he : k.expired with
+  | false =>
+    have hp := h.plan_eq he
+    simp only [hc.1, List.flatten_nil, List.append_nil] at hp
+    simp only [callView, outcome, he, Bool.false_eq_true, if_false, hc.2, List.take_length, hp]
+  | true =>
+    simp only [callView, outcome, he, if_true, hc.2, List.take_length, (h.expired_eq he).1]
+    simp [toOut]
+
+/-- … and for a call the request timeout has not cut, that is the handler's outcome -/
+theorem callView_complete_plan {cn : Conn} {k : Call} (h : CallOk k) (hc : k.complete = true)
+    (he : k.expired = false) : (callView cn k).got = k.plan.map toOut := by
+  rw [callView_complete h hc]
+  simp [outcome, callView, he]
 
 end Shutdown
